@@ -34,6 +34,19 @@ CLAIMED.update({
    text='Forward map proved to be foot point + h * unit normal with the foot point on the ellipsoid and the ellipsoid normal parallel to (cos lat cos lon, cos lat sin lon, sin lat); inverse on the image of the forward map: longitude recovered exactly, the true latitude is a fixed point of the iteration map, height recovered at the fixed point, latitude in (-pi/2, pi/2), longitude in (-pi, pi], all divisions / square roots defined.',
    note=TB_B + '; tolerances (1e-9 rad, 1 mm), rounding, loop termination and uniqueness of the fixed point are not decided (exact arithmetic, partial correctness)', ref='DESIGN.md 4 (C01)'),
 })
+CLAIMED.update({
+ 'C02': dict(cat='proof', technique='SMT verification conditions over the reals for the frame algebra + CBMC code contracts (dfcc, SMT back end) for the anchored-flag state machine',
+   text='After setAnchor from any prior state the frame columns are east/north/up at the anchor, the translation is the anchor ECEF position, the rotation is proper (orthonormal, det +1) and nothing of the old frame survives; to-local and to-ECEF are mutual inverses, the anchor maps to the origin, a point d above it to (0,0,d), distances are preserved; constructor/reset/un-anchored auto-anchoring/anchored conversions are contracts from arbitrary prior states, so every call sequence follows by induction.',
+   note=TB_B + '; Eigen::Affine3d modelled as a 4x4 matrix, inverse() by an assumed contract with a discharged orthonormality side condition; 1 mm round-trip tolerance not decided (exact arithmetic)', ref='DESIGN.md 4 (C02)'),
+})
+CLAIMED.update({
+ 'C20': dict(cat='proof', technique='SMT verification conditions over the reals for boxes/intervals + CBMC code contracts with loop invariants (bit-precise comparisons) for point-set extents',
+   text='AABB from an interval reproduces it; AABB and OBB containment are exactly the stated closed tests; the enclosing AABB of an OBB contains every point of it and is tight (a corner touches each face); interval union is the componentwise hull (2-D and 3-D, all real inputs). Container min/max and PointSetPreconditioner::compute: the reported extrema bound every point (probe, any set size up to the model capacity) and are attained by a point - never the seed - so all-negative sets are handled; scale/translation proved as expressions.',
+   note=TB_B + '; ' + TB_A + '; point sets of 1..32 finite points in the C model (property: up to 1000); mean is a floating accumulation (expression only)', ref='DESIGN.md 4 (C20)'),
+ 'C11': dict(cat='proof', technique='CBMC code contracts (bit-precise copies) + SMT verification conditions (quadratic forms, SE(3) action on extracted operator*)',
+   text='Reductions keep exactly x, y, yaw / vx, vy, yaw rate and rows/columns (0,1,5) of the covariance for every double (NaN included); embed-then-reduce is the identity and symmetry is kept; the quadratic forms of reduced/embedded covariances agree (so PSD is preserved); the rigid transform of a pose acts as R p + T on the position, the identity is neutral for position and attitude (as a rotation), successive transforms compose on the position.',
+   note=TB_A + '; ' + TB_B + '; NOT covered: the uncertainty ellipse (Eigen::JacobiSVD) and composition of the attitude part (needs R(angles(M)) = M), exercised by the native replay only', ref='DESIGN.md 4 (C11)'),
+})
 NA = {}
 def main():
     props = [json.loads(l) for l in open(os.path.join(V, 'properties.jsonl'))]
